@@ -333,4 +333,87 @@ pub fn run(ctx: &mut Ctx) {
             }
         }
     }
+    // ---- sets that contain terms flagged obsolete and / or replaced (only a decoded ontology can carry the
+    // flags): the combination is defined on the members of the two sets as given - nothing is dropped
+    {
+        CURRENT_IDS.with(|c| *c.borrow_mut() = Rc::new(ids.clone()));
+        let mut f3 = Facts::default();
+        f3.version = (2024, 2, 29);
+        f3.terms.push(Facts::term(1, "All"));
+        f3.terms.push(Facts::term(118, "Phenotypic abnormality"));
+        f3.edges.push((118, 1));
+        for (k, i) in ids.iter().enumerate() {
+            let mut t = Facts::term(*i, &format!("T{i}"));
+            // terms 0, 1 and 5 of the eight are obsolete; 1 and 2 are replaced
+            t.obsolete = k == 0 || k == 1 || k == 5;
+            if k == 1 || k == 2 {
+                t.replacement = Some(ids[3]);
+            }
+            f3.terms.push(t);
+            f3.edges.push((*i, 118));
+        }
+        let bytes = crate::encode::encode(&f3, &crate::encode::EncOpts::v(3));
+        let ont3 = match drive::from_bytes(&bytes) {
+            Ok(Ok(o)) => o,
+            other => {
+                ctx.space("matrices/flagged-terms", "decoded ontology with obsolete / replaced terms");
+                ctx.violation("Ontology::from_bytes", "cannot decode a file laid out as documented", json!({"facts": f3.to_json(), "observed": format!("{:?}", other.map(|r| r.map(|_| ())))}));
+                return;
+            }
+        };
+        let max3 = if thorough { 3 } else { 2 };
+        for r in 0..=max3 {
+            for c in 0..=max3 {
+                let cells = r * c;
+                let alphabet: &[f32] = if cells <= 4 { &alpha4 } else { &alpha3 };
+                let total: u64 = (alphabet.len() as u64).pow(cells as u32);
+                ctx.space(&format!("matrices/flagged-terms/{r}x{c}"), &format!("all {total} matrices of shape {r}x{c} over {alphabet:?} on a decoded (v3) ontology in which T10, T11, T15 are obsolete and T11, T12 replaced; id assignments as above, so sets are all-obsolete, mixed, or unflagged"));
+                let block: u64 = 256;
+                let mut start = 0u64;
+                while start < total {
+                    let end = (start + block).min(total);
+                    if !ctx.take() {
+                        start = end;
+                        continue;
+                    }
+                    for idx in start..end {
+                        ctx.state();
+                        let mut k = idx;
+                        let mut m = vec![vec![0f32; c]; r];
+                        for i in 0..r {
+                            for j in 0..c {
+                                m[i][j] = alphabet[(k % alphabet.len() as u64) as usize];
+                                k /= alphabet.len() as u64;
+                            }
+                        }
+                        if nontrivial(&m, r, c) {
+                            ctx.nontrivial();
+                        }
+                        let lo: Vec<u32> = ids[..r].to_vec();
+                        let hi: Vec<u32> = ids[4..4 + c].to_vec();
+                        let even: Vec<u32> = (0..r).map(|i| ids[2 * i]).collect();
+                        let odd: Vec<u32> = (0..c).map(|j| ids[2 * j + 1]).collect();
+                        let mut assignments: Vec<(Vec<u32>, Vec<u32>, &str)> = vec![(lo.clone(), hi.clone(), "flagged terms: A below B"), (even, odd, "flagged terms: interleaved ids"), (ids[4..4 + r].to_vec(), ids[..c].to_vec(), "flagged terms: A above B")];
+                        if r == c && r > 0 {
+                            assignments.push((lo.clone(), lo.clone(), "flagged terms: A = B"));
+                        }
+                        for (a_ids, b_ids, what) in assignments {
+                            ctx.exec();
+                            ctx.validated();
+                            ctx.transitions(27);
+                            match guard(|| check_matrix(&ont3, &m, r, c, &a_ids, &b_ids, what)) {
+                                Ok(None) => {}
+                                Ok(Some((site, sig, det))) => ctx.violation(&site, &sig, json!({"rows": r, "cols": c, "matrix": m, "A": a_ids, "B": b_ids, "obsolete": [ids[0], ids[1], ids[5]], "difference": det})),
+                                Err(p) => ctx.violation("HpoSet::similarity", "panics", json!({"rows": r, "cols": c, "matrix": m, "A": a_ids, "B": b_ids, "observed": p})),
+                            }
+                        }
+                        if idx == start {
+                            ctx.sample(|| json!({"shape": [r, c], "first_matrix_of_block": m, "obsolete": [ids[0], ids[1], ids[5]]}));
+                        }
+                    }
+                    start = end;
+                }
+            }
+        }
+    }
 }
